@@ -465,3 +465,34 @@ Proof.
   - cbn [app]. destruct (vrec_of t); reflexivity.
   - cbn [app]. unfold vrec_of. cbn [r_info]. rewrite map_map. cbn [fst]. exact E.
 Qed.
+
+(* ---------------------------------------------------------------- FORMAT keys without sample rows *)
+(* the former class format-keys-without-sample-rows (repaired in e6b6f67): a RecordBuf with FORMAT
+   keys but no sample row, under a header without samples, is written with n_fmt = 0 -- exactly as
+   the same record without its keys -- and is read back as that record (what the VCF writer and
+   reader make of it as well) *)
+Definition drop_keys (r : vrec) : vrec :=
+  {| r_chrom := r_chrom r; r_pos := r_pos r; r_ids := r_ids r; r_ref := r_ref r; r_alts := r_alts r;
+     r_qual := r_qual r; r_filters := r_filters r; r_info := r_info r; r_keys := [];
+     r_samples := r_samples r |}.
+
+Lemma write_without_rows : forall strings contigs h rlen r, r_samples r = [] ->
+  bcf_write strings contigs h rlen r = bcf_write strings contigs h rlen (drop_keys r).
+Proof.
+  intros strings contigs h rlen r Hr. unfold bcf_write, enc_record_w, has_rows, drop_keys.
+  cbn [r_samples]. rewrite Hr. unfold fix11_nfmt_zero_without_rows. cbn [andb negb]. reflexivity.
+Qed.
+
+Theorem keys_without_rows_roundtrip : forall strings contigs h rlen r rest,
+  wf strings -> wf contigs -> h_nsamples h = O -> r_samples r = [] ->
+  bcf_site_ok strings contigs h rlen (drop_keys r) ->
+  (forall sb, enc_site strings contigs (site_of h rlen r) (info_fields r) 0 = Ok sb ->
+     Z.of_nat (length sb) <= 4294967295) ->
+  exists bs, bcf_write strings contigs h rlen r = Ok bs /\
+             bcf_read strings contigs h (bs ++ rest) = ROk (drop_keys r).
+Proof.
+  intros strings contigs h rlen r rest Ws Wc Hns Hr Hok Hsb.
+  rewrite (write_without_rows _ _ _ _ _ Hr).
+  apply bcf_sites_roundtrip; try assumption.
+  repeat split; [exact Hns|exact Hr].
+Qed.
